@@ -119,7 +119,7 @@ def run(ctx):
     role_fns = {f for f, _ in OUTPUT_ROLE + DRAIN_ROLE} | {JT + "::output_refs"}
     other = sum(len(v) for k, v in by_fn.items() if k not in role_fns)
     r.notes.append(f"{other} further JoinType case analyses are extracted but not in a role table (information only)")
-    return [r, rule_flags(facts), rule_optab(facts), rule_condkeep(facts), rule_nullkey(facts), rule_eqidx(facts)]
+    return [r, rule_flags(facts), rule_optab(facts), rule_condkeep(facts), rule_nullkey(facts), rule_eqidx(facts), rule_drainloop(facts)]
 
 
 def rule_nullkey(facts):
@@ -235,11 +235,46 @@ def rule_eqidx(facts):
     return r
 
 
+
+def rule_drainloop(facts):
+    from .mir import Fn
+    """The outer-join / semi-join drain hands out the build-side rows block by block. Its consumer (PhysicalHashJoin::poll_execute) reads
+    "0 rows" as "this partition is exhausted". A loader that returns after a block that contributed nothing therefore ends the drain
+    early and the unmatched (LEFT) or matched (SEMI/MARK) rows of all later blocks are lost. Decided on `load_row_ptrs`: the statement
+    that advances the block cursor can reach the cursor's bound test again (the loader keeps going until the output is full or no block
+    is left) - i.e. it lies on a cycle with the comparison of `curr_block_idx` against the number of blocks."""
+    r = RuleResult("C06-DRAINLOOP", "the hash-join drain keeps loading blocks until the output is full or no block is left", floor=1)
+    recs = facts.fns_matching(lambda i: "hash_table::drain::HashTablePartitionDrainState" in i and i.endswith("::load_row_ptrs"))
+    if not recs:
+        r.missing_anchor("HashTablePartitionDrainState::load_row_ptrs")
+        return r
+    rec = recs[0]
+    fn = Fn(rec)
+    r.functions.add(fn.id)
+    adv, cmp_ = [], []
+    for b, i, pl, rv, ln in fn.assigns():
+        if any(isinstance(p_, list) and p_[0] == "f" and p_[1] == "curr_block_idx" for p_ in (pl[1] if len(pl) > 1 else [])):
+            adv.append((b, ln))
+        if rv[0] == "bin" and rv[1] in ("Ge", "Lt", "Gt", "Le"):
+            if "curr_block_idx" in str([fn.origin(x, at=b) for x in rv[2:4] if x[0] in ("c", "m")]):
+                cmp_.append((b, ln))
+    if not adv or not cmp_:
+        r.missing_anchor("load_row_ptrs: block cursor advance / bound comparison")
+        return r
+    for b, ln in adv:
+        ok = any(cb in fn.reachable_from(b) for cb, _ in cmp_)
+        r.inst({"fn": fn.id, "advance_line": ln, "bound_test_reachable_again": ok}, ok)
+        if not ok:
+            r.violate(fn.id, "drain-one-block-per-call", f"after advancing the block cursor (line {ln}) the loader returns without testing for further blocks: a block with "
+                      "nothing to emit yields 0 rows, which the join operator takes for the end of the drain", rec["file"], ln)
+    return r
+
 CLAIM = {
     "text": "Sibling-agreement rule over HIR match tables: the hash join, nested-loop join and logical join must partition the seven JoinType "
             "variants identically at sites with the same role (output columns; left-match tracking/drain). Agreement of sibling "
             "implementations is decidable from code shape for all inputs; which pairs a join produces is not. Plus a pairing rule for the "
-            "per-batch right-match flags (cleared before reuse in the hash join, reset after the flush in the nested-loop join). Plus a NULL-key rule: hash-join code outside the row matcher may look at an input array's validity only behind a test of the condition's ComparisonOperator (NULL is an ordinary operand of IS [NOT] DISTINCT FROM). Plus: a position recorded in the hash table's equality-key list is the running count of all join keys, not of the equalities.",
+            "per-batch right-match flags (cleared before reuse in the hash join, reset after the flush in the nested-loop join). Plus a NULL-key rule: hash-join code outside the row matcher may look at an input array's validity only behind a test of the condition's ComparisonOperator (NULL is an ordinary operand of IS [NOT] DISTINCT FROM). Plus: a position recorded in the hash table's equality-key list is the running count of all join keys, not of the equalities."
+            " Plus DRAINLOOP: the drain loader advances its block cursor on a cycle with the bound test (it never returns an empty batch while blocks are left).",
     "note": "trusted: rustc HIR + typeck resolution of patterns; the role table in rules/c06.py (sites confirmed by reading)",
     "technique": "static analysis: sibling agreement over HIR match tables (rustc_private driver)",
 }
